@@ -2,6 +2,8 @@
   C05 — stabilizer state comparison and fidelity are exact.
 -/
 import GraphiqModel.Proofs.InverseCircuit
+import GraphiqModel.Proofs.CanonUnique
+import GraphiqModel.Proofs.CanonCheck
 namespace Graphiq.C05
 open Graphiq Graphiq.PRow Graphiq.STab Graphiq.Tab
 
@@ -78,14 +80,60 @@ theorem fidelity_value_set (a b : Tab) (r : Option Nat) (_ : STab.innerProduct a
   | none => exact Or.inl rfl
   | some k => exact Or.inr ⟨k, rfl⟩
 
-/-- full statements kept visible; they are not theorems of this development:
-    (1) `canonical_form` is a *normal form*: equal signed groups have row-wise equal canonical forms (completeness of `__eq__`);
-    (2) `inner_product` computes the overlap: `0` if the groups contain `P` and `−P`, else `2^{-(n - dim(A ∩ B))/2}`.
-    Both rest on `inverse_circuit` always reaching |0…0⟩, which is false on the current code (C11 `synthesis_incomplete`, D42);
-    on the inputs where the model reaches |0…0⟩ they are checked against an independent oracle on every correspondence input. -/
+/-- **Postcondition of `canonical_form`** (every n, every input tableau, no hypothesis on the rows): whenever it returns,
+    the result has the reduced echelon shape `STab.Canon` (Proofs/CanonShape.lean): there are `k` and pivot columns
+    `px 0 < … < px (k-1)`, `pz k < … < pz (n-1)` such that
+    * row `i < k` (X block) has x-bit 1 at column `px i`, no x-bit left of it, and *every other row* has x-bit 0 there;
+    * the rows `k..n-1` (Z block) have no x-bit at all; row `i ≥ k` has z-bit 1 at column `pz i`, no z-bit left of it, and
+      *every other row of the tableau*, X block included, has z-bit 0 there.
+    Proved by loop invariants over the two `for` loops of the code (`canonStepXY`, `canonStepZ`). -/
+theorem canonical_form_returns_canon (t c : STab) (h : t.canonicalForm = .ok c) : STab.Canon c :=
+  canonicalForm_canon t c h
+
+/-- **Uniqueness of the shape** (every n): two real commuting tableaux in `Canon` shape that generate the same signed
+    group are equal row by row — Pauli strings *and* sign bits (uniqueness of the reduced row echelon form over the
+    2n-bit symplectic vectors with the pivot order of `canonical_form`; a sign is determined by its Pauli string because
+    the group of a `Canon` tableau does not contain `−I`). -/
+theorem canon_shape_unique (a b : STab) (ha : STab.Canon a) (hb : STab.Canon b) (ga : a.Good) (gb : b.Good)
+    (s : a.n = b.n ∧ ∀ p, a.Spn p ↔ b.Spn p) : SameRows a b :=
+  ⟨s.1, canon_unique a b ha hb ga gb ⟨s.1, fun p => (s.2 p).1, fun p => (s.2 p).2⟩⟩
+
+/-- **The executable shape checker is sound**: a tableau accepted by `STab.isCanon` (driver command `stab.iscanon`, which
+    the correspondence harness runs on every canonical form the *real* `canonical_form` returns) has the shape `Canon`;
+    so two accepted real commuting tableaux with the same signed group are row-wise equal (`canon_shape_unique`). -/
+theorem shape_checker_sound (c : STab) (h : c.isCanon = true) : STab.Canon c := isCanon_sound c h
+
+/-- the full normal-form statement: `canonical_form` is a *normal form* for the signed group — two real commuting
+    generating sets of the same signed group have row-wise equal canonical forms (completeness of `Stabilizer.__eq__`:
+    it never reports two equal states different).  Proved below as `canonical_form_is_normal_form`; it is pure Gaussian
+    elimination and does not depend on `inverse_circuit`.
+
+    What is still **not** a theorem of this development is the second half of C05, the value of the overlap:
+    `inner_product` returns `0` if the groups contain `P` and `−P`, else `2^{-(n - dim(A ∩ B))/2}`.  That one rests on
+    `inverse_circuit` always reaching |0…0⟩, which is false on the current code (C11 `synthesis_incomplete`, D42); on the
+    inputs where the model reaches |0…0⟩ it is checked against an independent oracle on every correspondence input. -/
 def canonical_form_is_normal_form_statement : Prop :=
   ∀ (a b ca cb : STab), a.Good → b.Good → (a.n = b.n ∧ ∀ p, a.Spn p ↔ b.Spn p) →
     a.canonicalForm = .ok ca → b.canonicalForm = .ok cb → SameRows ca cb
+
+/-- **Completeness of state equality / `canonical_form` is a normal form** (every n, every pair of generating sets):
+    if two real commuting tableaux generate the same signed group and `canonical_form` returns on both, the two results
+    are equal row by row, sign bits included. -/
+theorem canonical_form_is_normal_form : canonical_form_is_normal_form_statement := by
+  intro a b ca cb ha hb hs h1 h2
+  obtain ⟨s1, g1⟩ := canonicalForm_spanEq a ca ha h1
+  obtain ⟨s2, g2⟩ := canonicalForm_spanEq b cb hb h2
+  have s : SpanEq ca cb := (s1.symm.trans ⟨hs.1, fun p => (hs.2 p).1, fun p => (hs.2 p).2⟩).trans s2
+  exact canon_shape_unique ca cb (canonicalForm_canon a ca h1) (canonicalForm_canon b cb h2) g1 g2
+    ⟨s.n_eq, fun p => ⟨s.sub p, s.sup p⟩⟩
+
+/-- **State equality is exact** (every n): for real commuting generating sets on which `canonical_form` returns, the
+    canonical forms coincide row by row *iff* the two sets generate the same signed group (soundness `equality_sound` +
+    completeness `canonical_form_is_normal_form`). -/
+theorem equality_exact (a b ca cb : STab) (ha : a.Good) (hb : b.Good)
+    (h1 : a.canonicalForm = .ok ca) (h2 : b.canonicalForm = .ok cb) :
+    SameRows ca cb ↔ (a.n = b.n ∧ ∀ p, a.Spn p ↔ b.Spn p) :=
+  ⟨equality_sound a b ca cb ha hb h1 h2, fun hs => canonical_form_is_normal_form a b ca cb ha hb hs h1 h2⟩
 
 /-! ### Non-vacuity -/
 def bellMinus : STab :=   -- generators −XX, ZZ in the gauge (−XX·ZZ = YY, ZZ):  YY, ZZ
@@ -96,5 +144,63 @@ def bellMinus : STab :=   -- generators −XX, ZZ in the gauge (−XX·ZZ = YY, 
 example : (match bellMinus.canonicalForm with | .ok c => c.n == 2 | .error _ => false) = true := by decide
 example : (List.range 2).all (fun i => (bellMinus.row i).ip == false &&
     (List.range 2).all fun k => PRow.sp 2 (bellMinus.row i) (bellMinus.row k) == false) = true := by decide
+
+/-- the same state from another generating set: −XX, ZZ -/
+def bellMinusXX : STab :=
+  STab.ofRows 2 #[
+    PRow.ofArrays #[true,true] #[false,false] true false,
+    PRow.ofArrays #[false,false] #[true,true] false false]
+
+theorem good2 (t : STab) (hn : t.n = 2)
+    (h : (List.range 2).all (fun i => (t.row i).ip == false &&
+      (List.range 2).all fun k => PRow.sp 2 (t.row i) (t.row k) == false) = true) : t.Good := by
+  simp only [List.all_eq_true, List.mem_range, Bool.and_eq_true, beq_iff_eq] at h
+  constructor
+  · intro i hi; exact (h i (hn ▸ hi)).1
+  · intro i k hi hk; rw [hn]; exact (h i (hn ▸ hi)).2 k (hn ▸ hk)
+
+theorem bellMinus_good : bellMinus.Good := good2 _ rfl (by decide)
+theorem bellMinusXX_good : bellMinusXX.Good := good2 _ rfl (by decide)
+
+/-- `YY, ZZ` and `−XX, ZZ` generate the same signed group (`−XX = YY · ZZ`, `YY = −XX · ZZ`) -/
+theorem bell_spanEq : SpanEq bellMinus bellMinusXX := by
+  apply spanEq_of_gens bellMinus bellMinusXX rfl
+  · intro i hi
+    have : i = 0 ∨ i = 1 := by have : i < 2 := hi; omega
+    rcases this with rfl | rfl
+    · exact InSpan.eqv _ _ (InSpan.mul _ _ (spn_gen bellMinus 0 (by decide)) (spn_gen bellMinus 1 (by decide)))
+        (beqOn_eqOn _ _ _ (by decide))
+    · exact InSpan.eqv _ _ (spn_gen bellMinus 1 (by decide)) (beqOn_eqOn _ _ _ (by decide))
+  · intro i hi
+    have : i = 0 ∨ i = 1 := by have : i < 2 := hi; omega
+    rcases this with rfl | rfl
+    · exact InSpan.eqv _ _ (InSpan.mul _ _ (spn_gen bellMinusXX 0 (by decide)) (spn_gen bellMinusXX 1 (by decide)))
+        (beqOn_eqOn _ _ _ (by decide))
+    · exact InSpan.eqv _ _ (spn_gen bellMinusXX 1 (by decide)) (beqOn_eqOn _ _ _ (by decide))
+
+/-- the checker accepts a non-trivial tableau (−XX, ZZ) and rejects a non-reduced one (YY, ZZ) -/
+example : bellMinusXX.isCanon = true ∧ bellMinus.isCanon = false := by decide
+
+theorem canonicalForm_ok (t : STab) (h : t.canonLoops.2 = t.n) : t.canonicalForm = .ok t.canonLoops.1 := by
+  unfold canonicalForm; rw [if_pos h]
+
+/-- the hypotheses of `canonical_form_is_normal_form` / `equality_exact` / `canon_shape_unique` /
+    `canonical_form_returns_canon` are met by two *different* generating sets of one state on which `canonical_form`
+    returns (so the conclusion `SameRows ca cb` is not the trivial reflexive one) -/
+example : ∃ a b ca cb : STab, a.Good ∧ b.Good ∧ (a.n = b.n ∧ ∀ p, a.Spn p ↔ b.Spn p) ∧
+    a.canonicalForm = .ok ca ∧ b.canonicalForm = .ok cb ∧ ¬ SameRows a b ∧
+    STab.Canon ca ∧ STab.Canon cb ∧ ca.Good ∧ cb.Good ∧ SameRows ca cb := by
+  have h1 := canonicalForm_ok bellMinus (by decide)
+  have h2 := canonicalForm_ok bellMinusXX (by decide)
+  have hs : bellMinus.n = bellMinusXX.n ∧ ∀ p, bellMinus.Spn p ↔ bellMinusXX.Spn p :=
+    ⟨rfl, fun p => ⟨bell_spanEq.sub p, bell_spanEq.sup p⟩⟩
+  refine ⟨bellMinus, bellMinusXX, _, _, bellMinus_good, bellMinusXX_good, hs, h1, h2, ?_,
+    canonical_form_returns_canon _ _ h1, canonical_form_returns_canon _ _ h2,
+    (canonicalForm_spanEq _ _ bellMinus_good h1).2, (canonicalForm_spanEq _ _ bellMinusXX_good h2).2,
+    canonical_form_is_normal_form _ _ _ _ bellMinus_good bellMinusXX_good hs h1 h2⟩
+  intro h
+  have := (h.2 0 (by decide)).2.1
+  revert this
+  decide
 
 end Graphiq.C05
